@@ -51,6 +51,11 @@ class StmtsMixin:
             if m is None:
                 raise Unsupported(f"stmt {type(s).__name__} line {s.lineno}")
             res = m(s, s0, d)
+            gh = self.ghost_after.get(ast.unparse(s).split("\n")[0]) if getattr(self, "ghost_after", None) else None
+            if gh is not None:
+                for s1, kind, val in res:
+                    if kind == "fall":
+                        gh(self, s1)
             nxt = []
             for s1, kind, val in res:
                 if kind == "fall":
@@ -125,6 +130,15 @@ class StmtsMixin:
             states = nxt
         return [(s1, "fall", None) for s1 in states]
 
+    def retype_fresh_list(self, val, want, st):
+        """a literal `[]` stored into a typed slot adopts the slot's element type"""
+        if val.ty == ("list", ("dyn",)) and want and want[0] == "list" and want[1] != ("dyn",):
+            nv = V(want, val.term, py=val.py)
+            if strip_opt(want[1])[0] == "ref":
+                st.set_mem(val.term, z3.K(REF, z3.BoolVal(False))); st.set_nodup(val.term, True)
+            return nv
+        return val
+
     def assign(self, target, val, st, d):
         if isinstance(target, ast.Name):
             st = st.copy(); st.env[target.id] = val
@@ -138,6 +152,10 @@ class StmtsMixin:
                     raise Unsupported(f"attribute store on {o.ty}")
                 if ("hook", "store", o.ty[1], target.attr) in self.specs:
                     self.specs[("hook", "store", o.ty[1], target.attr)](self, s1, o, val)
+                try:
+                    val = self.retype_fresh_list(val, strip_opt(field_type(o.ty[1], target.attr)), s1)
+                except Unsupported:
+                    pass
                 s1.write(o, target.attr, val)
                 out.append(s1)
             return out
@@ -150,7 +168,7 @@ class StmtsMixin:
                     if b.ty[0] == "list":
                         s2.list_set(b, self.as_int(idx, s2), val)
                     elif b.ty[0] == "dict":
-                        s2.dict_set(b, idx, val)
+                        s2.dict_set(b, idx, self.retype_fresh_list(val, strip_opt(b.ty[2]), s2))
                     elif b.ty[0] == "dyn":
                         s2.oblige("json-value-is-dict", dyn_is_dict(b.term), "implicit")
                         s2.dict_set(V(("dict", ("str",), ("dyn",)), dyn_ref(b.term)), idx, val)
